@@ -32,7 +32,12 @@ pub enum Mut {
     ManyHeaders { count: u16, width: u8 },
     /// pad the body up to (buffer size + delta)
     Oversize(u16),
+    /// replace the n-th run of ASCII digits of the document (a length, offset, size, port, status, JSON number ...) by the k-th extreme value
+    Number(u16, u8),
 }
+
+pub const EXTREME_NUMBERS: [&str; 24] = ["0", "1", "-1", "2147483647", "2147483648", "4294967295", "4294967296", "9223372036854775807", "9223372036854775808", "18446744073709551615", "18446744073709551616",
+    "170141183460469231731687303715884105727", "340282366920938463463374607431768211456", "99999999999999999999999999999999999999999999", "", "00000000000000000005", "1e9", "0x10", "+5", " 7", "1.5", "-0", "65535", "65536"];
 
 #[derive(Clone, Debug, Serialize, Deserialize, PartialEq, Eq, Hash)]
 pub struct ReqCase { pub base: Base, pub muts: Vec<Mut> }
@@ -87,6 +92,19 @@ pub fn apply_muts(v: &mut Vec<u8>, muts: &[Mut], bufsize: usize) {
                     v.extend_from_slice(&line);
                 }
                 v.extend_from_slice(&tail);
+            }
+            Mut::Number(n, k) => {
+                // runs of digits, in order of appearance
+                let mut runs: Vec<(usize, usize)> = vec![];
+                let mut i = 0;
+                while i < v.len() { if v[i].is_ascii_digit() { let st = i; while i < v.len() && v[i].is_ascii_digit() { i += 1; } runs.push((st, i)); } else { i += 1; } }
+                if !runs.is_empty() {
+                    let (st, en) = runs[pick_idx(*n, runs.len())];
+                    let tail = v.split_off(en);
+                    v.truncate(st);
+                    v.extend_from_slice(EXTREME_NUMBERS[*k as usize % EXTREME_NUMBERS.len()].as_bytes());
+                    v.extend_from_slice(&tail);
+                }
             }
             Mut::Oversize(delta) => { let want = bufsize + (*delta as usize % 3000); while v.len() < want { v.push(b'A' + (v.len() % 26) as u8); } }
         }
@@ -316,6 +334,7 @@ pub fn mut_strategy() -> impl Strategy<Value = Mut> {
         1 => (any::<u16>(), 0u8..8).prop_map(|(p, b)| Mut::Flip(p, b)),
         1 => (prop_oneof![4 => 1u16..200, 2 => 200u16..3000, 2 => 3000u16..6000], prop_oneof![3 => Just(2u8), 2 => Just(3u8), 2 => 4u8..40]).prop_map(|(count, width)| Mut::ManyHeaders { count, width }),
         1 => any::<u16>().prop_map(Mut::Oversize),
+        3 => (any::<u16>(), 0u8..24).prop_map(|(n, k)| Mut::Number(n, k)),
     ]
 }
 
